@@ -391,8 +391,9 @@ def stepLine (ms : Mgrs) (line : String) : Mgrs × String :=
       if id = dst then (ms, showOut (.ok (.int u))) else
       match ms[id]?, ms[dst]? with
       | some src, some tgt =>
-        let (r, tgt') := copyBdd src.tbl u tgt
-        (ms.insert dst tgt', showOut (r.map Res.int))
+        let (r, tgt') := copyBdd src.tbl u { tgt with sched := sched }
+        let left := !tgt'.sched.isEmpty && (match r with | .ok _ => true | .error _ => false)
+        (ms.insert dst { tgt' with sched := [] }, showOut (r.map Res.int) ++ (if left then " SCHED-LEFT" else ""))
       | _, _ => (ms, "err BAD-MGR")
     | _, _, _ => (ms, "err BAD-LINE")
   | id :: op :: args =>
